@@ -173,6 +173,11 @@ def run_case(case: dict[str, Any]) -> dict[str, Any]:  # noqa: C901, PLR0912, PL
     with capture(driver, passthrough=case["method"] != "scripted") as cap:
         outer_plan.run_step(outer_step, config=outer_cfg, transforms=transforms,
                             variables=None if case["start"] is None else start_opt, nested_optimization=inner_plan)
+    # what the nested plan delivered (and its own handlers hold) still shows the variables it was delivered with
+    for res, snapshot in state["seen"].values():
+        check(bool(np.array_equal(snapshot, np.asarray(res.evaluations.variables))), "delivered-result-changed",
+              f"a result delivered by the nested plan showed variables {snapshot.tolist()} when it was delivered and shows "
+              f"{np.asarray(res.evaluations.variables).tolist()} after the outer run", case)
     n_free_outer, n_free_inner = int(free.sum()), int((~free).sum())
     for shape in cap.shapes:
         check(shape[0] in (n_free_outer, n_free_inner) and shape[1] == shape[0], "backend-length",
